@@ -327,6 +327,10 @@ def mp3(ctx, R):
     prog = ctx.prog
     ch = prog.cls("tdms.TdmsChannel")
 
+    from .rules_cursor import chunk_cache_model
+    cm = chunk_cache_model(ctx)
+    CACHE_V = cm["V"]
+
     def is_scaling_ref(x):
         return x == ("self", "_scaling") or (isinstance(x, tuple) and len(x) == 3 and x[0] == "attr" and x[2] == "_scaling")
 
@@ -346,7 +350,7 @@ def mp3(ctx, R):
         v = strip_index(leaf)
         if is_empty_array(v):
             return "empty", None
-        if v == ("self", "_cached_chunk"):
+        if v == CACHE_V:
             return "cached", None
         b = match(("method", "scale", W("S"), (W("X"),), ()), v)
         if b is not None and is_scaling_ref(b["S"]):
@@ -379,6 +383,8 @@ def mp3(ctx, R):
         elif "scaled" not in kinds:
             if "other" in kinds:
                 R.undecided(key, where, "result form `%s` not understood" % show(kinds["other"][0])[:120])
+            elif "cached" in kinds:
+                R.ok(key, where, "results are served from the chunk cache (what is stored there is checked separately): %s" % ", ".join(sorted(kinds)))
             else:
                 R.violation(key, where, "no result applies the channel's scaling (results: %s)" % sorted(kinds))
         elif "other" in kinds:
@@ -408,14 +414,16 @@ def mp3(ctx, R):
     check_scaled("tdms.TdmsChannel._read_at_index", ri, Sym(prog, ri, ch).function_value(), ri.where())
     # what is stored in the chunk cache is scaled
     stores = []
-    for m in ch.methods.values():
+    K = cm["owner"]
+    vfield = CACHE_V[-1]
+    for m in K.methods.values():
         for n in walk_body(m.node):
-            if isinstance(n, ast.Assign) and any(dotted(t) == "self._cached_chunk" for t in n.targets):
+            if isinstance(n, ast.Assign) and any(dotted(t) == "self." + vfield for t in n.targets):
                 stores.append((m, n))
     ok_store = True
     n_data_stores = 0
     for m, n in stores:
-        sy = Sym(prog, m, ch)
+        sy = Sym(prog, m, K)
         env, _g = sy.env_at(n)
         val = sy.expr(n.value, env)
         if val == ("const", None):
@@ -424,9 +432,9 @@ def mp3(ctx, R):
         vals = [val]
         if val[0] == "param":
             vals = []
-            for caller in ch.methods.values():
-                for c in calls_to(prog, caller, m.qual, ch):
-                    s2 = Sym(prog, caller, ch)
+            for caller in list(ch.methods.values()) + ([] if K is ch else list(K.methods.values())):
+                for c in calls_to(prog, caller, m.qual, K):
+                    s2 = Sym(prog, caller, caller.cls)
                     e2, _ = s2.env_at(c)
                     a = call_arg(prog, c, m, val[1], s2, e2)
                     if a is not None:
@@ -1188,16 +1196,30 @@ def ch1(ctx, R):
     fetch = nodes_reaching(ctx, fi, cfg, {"reader.TdmsReader.read_channel_chunk_for_index"})
     if not fetch:
         raise AnchorMissing("tdms.TdmsChannel._read_at_index: chunk fetch")
-    sy = Sym(prog, fi, fi.cls, inline=False)
-    hits = []
-    for n in cfg.where(lambda n: n.kind == "return" and n.ast.value is not None):
-        env, _g = sy.env_at(n.ast)
-        v = sy.expr(n.ast.value, env)
-        if v[0] == "sub" and v[1] == ("self", "_cached_chunk"):
-            hits.append(n)
-    after = cfg.reach([m for f in fetch for m, k in f.succ if k not in ("exc", "uncaught")], follow_exc=False)
-    R.check(not any(h in after for h in hits), "tdms.TdmsChannel._read_at_index::fetch only on a miss", fi.where(fetch[0].ast),
-            "a value served from the cache is returned before any chunk is fetched", "a chunk is fetched from the file even when the cached chunk holds the value")
+    from .rules_cursor import chunk_cache_model
+    from .sym import eval_cond
+    from .sem import flat_conds, norm_items
+    cm = chunk_cache_model(ctx, fi)
+    sy = Sym(prog, fi, fi.cls)
+    for conds, _K, _I, _S in cm["hits"]:
+        atoms = set(flat_conds(conds))
+
+        def orc(a):
+            if a in atoms:
+                return True
+            if isinstance(a, tuple) and a and a[0] == "cmp" and len(a) == 4 and ("cmp", {"is": "is not", "==": "!="}.get(a[1], "?"), a[2], a[3]) in atoms:
+                return False
+            return None
+        for f in fetch:
+            _env, guards = sy.env_at(f.ast)
+            vals = [eval_cond(norm_items(g), orc) for g in guards]
+            key = "tdms.TdmsChannel._read_at_index::fetch only on a miss"
+            if any(v is False for v in vals):
+                R.ok(key, fi.where(f.ast), "the chunk fetch is not executed when the hit test holds")
+            elif all(v is True for v in vals):
+                R.violation(key, fi.where(f.ast), "a chunk is fetched from the file even when the cached chunk holds the value")
+            else:
+                R.undecided(key, fi.where(f.ast), "conditions of the fetch not decided under the hit test: %s" % "; ".join(show(g) for g in guards)[:160])
     from .rules_index import _segment_verifiers
     vers = _segment_verifiers(ctx)
     if not vers:
